@@ -1,4 +1,6 @@
 //! Independent references written from the RFCs; no code shared with ldap3/lber.
 pub mod ber;
+pub mod dn;
+pub mod url;
 pub mod filter;
 pub mod msg;
